@@ -57,3 +57,12 @@ ENTRIES += [
     B('mimetype-subtype-without-plus', "            r\"([!#$%&'*+.^_`|~a-zA-Z0-9-]+/[!#$%&'*+.^_`|~a-zA-Z0-9-]+)\", value)", "            r\"([!#$%&'*+.^_`|~a-zA-Z0-9-]+/[!#$%&'*.^_`|~a-zA-Z0-9-]+)\", value)", 'C07-D7'),
     N('mimetype-word-class', "            r\"([!#$%&'*+.^_`|~a-zA-Z0-9-]+/[!#$%&'*+.^_`|~a-zA-Z0-9-]+)\", value)", "            r\"([!#$%&'*+.^`|~\\w-]+/[!#$%&'*+.^`|~\\w-]+)\", value)"),
 ]
+
+RQ = 'wpull/protocol/http/request.py'
+ENTRIES += [
+    {'id': 'C07/status-reason-optional', 'prop': 'C07', 'kind': 'break', 'expect': 'C07-D6', 'edits': [(RQ,
+      "br'(HTTP/\\d+\\.\\d+)[ \\t]+([0-9]{1,3})[ \\t]*([^\\r\\n]*)'", "br'(HTTP/\\d+\\.\\d+)[ \\t]+([0-9]{1,3})(?:[ \\t]+([^\\r\\n]*))?'")]},
+    {'id': 'C07/benign-status-reason-optional-defaulted', 'prop': 'C07', 'kind': 'benign', 'edits': [(RQ,
+      "br'(HTTP/\\d+\\.\\d+)[ \\t]+([0-9]{1,3})[ \\t]*([^\\r\\n]*)'", "br'(HTTP/\\d+\\.\\d+)[ \\t]+([0-9]{1,3})(?:[ \\t]+([^\\r\\n]*))?'"),
+      (RQ, "(groups[0], int(groups[1]), groups[2]),", "(groups[0], int(groups[1]), groups[2] or b''),")]},
+]
